@@ -29,7 +29,9 @@ package sigbits
 //@   requires len(keys) >= 1 && len(keys) < 1<<40
 //@   requires forall i int :: 0 <= i && i < len(keys) ==> len(keys[i]) < 1<<27
 //@   ensures len(ds) == len(keys) - 1
-//@   ensures forall i int :: 0 <= i && i < len(keys) - 1 ==> fdBytes(keys[i], keys[i+1], ds[i])
+// (bound variable named ...SK: a caller instantiates this clause only at the skolem constants of its goals;
+// fdsOK below is the same fact as an opaque atom, exposed pointwise by the lemma fdsOK_at)
+//@   ensures forall iSK int :: 0 <= iSK && iSK < len(keys) - 1 ==> fdBytes(keys[iSK], keys[iSK+1], ds[iSK])
 //@   ensures fdsOK(keys, ds)
 //@   ensures fresh(ds)
 //@   assigns nothing
